@@ -185,5 +185,31 @@ def check(run, prog):
                 st_ok = sp.simplify(out.attrs["_start_time"].expr - z.attrs["_start_time"].expr) == 0
                 run.ob("R4", gi.where, f"z[:, :, 1] ('{al}')", "selecting a trailing-axis component changes neither time nor frequency labels",
                        ok and st_ok, found=str([str(sp.simplify(g(j))) for j in range(3)]), nontrivial=True)
+    # Stokes component selected by name
+    sgi = prog.func("FullStokesSignal.__getitem__")
+    run.touched(sgi)
+    n_st = 0
+    for nchan, al in ((4, "bottom"), (4, "top"), (4, "center"), (5, "center")) + (((6, "top"), (2, "bottom")) if run.tier != "quick" else ()):
+        for comp in (("I", "V") if run.tier == "quick" else ("I", "Q", "U", "V")):
+            z = make_signal(prog, "FullStokesSignal", n=nsample, nchan=nchan, freq_align=al)
+            ev = ck.evaluator()
+            lab0 = labels(ck, ev, z, "R4", gfreq.where, "labels of the Stokes signal")
+            tag = f"FullStokesSignal(nchan={nchan}, '{al}')['{comp}']"
+            out = ck.attempt("R4", sgi.where, tag, "component selection evaluates", lambda: ev.getitem(z, StrV(comp), FR()), ev=ev)
+            if out is None or lab0 is None or not isinstance(out, ObjV):
+                continue
+            lab = labels(ck, ev, out, "R4", sgi.where, "labels of the selected component")
+            if lab is None:
+                continue
+            n_st += 1
+            g, n1 = lab
+            f0, _ = lab0
+            ok = sp.simplify(n1 - nchan) == 0 and all(sp.simplify(g(j) - f0(j)) == 0 for j in range(nchan))
+            st_ok = sp.simplify(out.attrs["_start_time"].expr - z.attrs["_start_time"].expr) == 0 \
+                and sp.simplify(out.attrs["_sample_rate"].expr - z.attrs["_sample_rate"].expr) == 0
+            run.ob("R4", sgi.where, tag, "selecting a Stokes component changes neither time nor frequency labels",
+                   ok and st_ok, found=str([str(sp.simplify(g(j))) for j in range(min(3, nchan))]),
+                   expected=str([str(sp.simplify(f0(j))) for j in range(min(3, nchan))]), nontrivial=True)
+    run.floor("R4", "Stokes component selections examined", n_st, 8)
     run.extra["decided_by"] = ck.how
     run.extra["channel_ranges_examined"] = n_slices
